@@ -52,11 +52,7 @@ func (c *Ctx) dispatch(fn *ssa.Function) []dispatchArm {
 		if !ok || cond.Op != token.EQL {
 			continue
 		}
-		sh, ok := strip(cond.X).(*ssa.BinOp)
-		if !ok || sh.Op != token.SHR {
-			continue
-		}
-		if n, ok := intConst(sh.Y); !ok || n != 4 {
+		if !c.isTypeNibble(cond.X, 0) {
 			continue
 		}
 		k, ok := intConst(cond.Y)
@@ -102,11 +98,7 @@ func (c *Ctx) dispatch(fn *ssa.Function) []dispatchArm {
 			if !ok {
 				continue
 			}
-			sh, ok := strip(ia.Index).(*ssa.BinOp)
-			if !ok || sh.Op != token.SHR {
-				continue
-			}
-			if n, ok := intConst(sh.Y); !ok || n != 4 {
+			if !c.isTypeNibble(ia.Index, 0) {
 				continue
 			}
 			tab, ok := c.constTable(g)
@@ -255,4 +247,39 @@ func (c *Ctx) litElems(v ssa.Value) (map[int64]ssa.Value, bool) {
 		}
 	}
 	return out, true
+}
+
+// isTypeNibble: v is x>>4 — written in place, kept in a local (a phi of one
+// value), or computed by an accessor introduced later that returns its
+// parameter shifted by 4 (head.packetType()).
+func (c *Ctx) isTypeNibble(v ssa.Value, depth int) bool {
+	if depth > 4 {
+		return false
+	}
+	switch x := strip(v).(type) {
+	case *ssa.BinOp:
+		if x.Op != token.SHR {
+			return false
+		}
+		n, ok := intConst(x.Y)
+		return ok && n == 4
+	case *ssa.Call:
+		f := x.Call.StaticCallee()
+		if f == nil || !c.isNewHelper(f) {
+			return false
+		}
+		n := 0
+		for _, b := range f.Blocks {
+			for _, ins := range b.Instrs {
+				if r, ok := ins.(*ssa.Return); ok {
+					if len(r.Results) != 1 || !c.isTypeNibble(r.Results[0], depth+1) {
+						return false
+					}
+					n++
+				}
+			}
+		}
+		return n > 0
+	}
+	return false
 }
